@@ -15,6 +15,9 @@ scheduled time (getTime() semantics) in exact 1/16 s ticks.  Checked relationall
     getTime() of each == model time; cancel/reset/delay raise AlreadyCalled/AlreadyCancelled exactly
     when the model says so;
   * timeout() (top level only) is not None when something is pending and <= max(0, earliest - now).
+Timed calls may raise (body operation ["raise"]): iterate() must not let the exception escape and every
+other check keeps applying to the remaining calls of that iteration (that the failure is *logged* is
+outside the statement: counted, not judged; any other logged failure is a violation).
 False-alarm guards: ties unordered; a negative delay() may move a call created in this iteration
 before running ones -> ordering is evaluated over eligible calls only; timeout() may be smaller than
 necessary or non-None with nothing pending (cancelled heap top) -> only the upper bound is checked;
@@ -42,7 +45,8 @@ SHARDS = {"quick": 4, "thorough": 16}
 FLOORS = {"run_checks": 2000, "pending_checks": 10000, "timeout_bounded": 500, "end_of_step_checks": 2000,
           "eff_cancel": 500, "eff_reset": 200, "eff_delay": 200, "eff_negative_delay": 50, "op_call_in": 200,
           "refused_AlreadyCalled": 50, "refused_AlreadyCancelled": 50, "compactions": 20, "compactions_with_cancelled_call_in_staging": 20, "ties_at_run": 100,
-          "heap_checks": 2000, "explore_states": 500}
+          "heap_checks": 2000, "explore_states": 500, "raised_calls": 500,
+          "raised_calls_logged": 500}
 READY = True
 
 KINDS = ["mini", "mini", "mini", "mini", "mini", "select", "poll", "epoll"]
@@ -95,6 +99,27 @@ class Run(tm.TimerRun):
         self.stat("heap_checks")
 
 
+CAP = [None]  # the LogCapture of the current shard (failures logged by the reactor are monitor events)
+
+
+def scan_log(ctx, run):
+    """Raising timed calls are logged by the reactor; anything else that is logged is a violation.
+    (That every raise is logged is not part of the statement: counted as raised_calls_logged, unjudged.)"""
+    cap = CAP[0]
+    if cap is None or not cap.events:
+        return
+    for e in cap.events:
+        f = e.get("log_failure")
+        if f is None:
+            continue
+        if f.check(tm.Boom):
+            ctx.count("raised_calls_logged")
+        else:
+            run.fail("logged-failure", "the reactor logged an unexpected failure: %s: %s"
+                     % (getattr(f.type, "__name__", "?"), f.getErrorMessage()[:200]))
+    del cap.events[:]
+
+
 def run_history(ctx, kind, history, max_calls):
     t = make_target(kind)
     try:
@@ -102,6 +127,7 @@ def run_history(ctx, kind, history, max_calls):
         run.run(history)
     finally:
         t.dispose()
+    scan_log(ctx, run)
     run.flush()
     ctx.evaluated()
     ctx.seen("reactor_types", t.label)
@@ -112,19 +138,20 @@ def run_history(ctx, kind, history, max_calls):
 
 # ---- exhaustive short histories (E1) ----------------------------------------------------------------
 BODIES = [[], [["cancel", ["a", 1]]], [["reset", ["a", 0], 0]], [["delay", ["a", 2], -2 * tm.U]], [["call", 0, []]],
-          [["reset", "self", tm.U]]]
+          [["reset", "self", tm.U]], [["raise"]], [["call", 0, []], ["raise"]]]
 
 
 class World:
     def __init__(self, ctx):
         self.t = make_target("mini")
         self.run = Run(ctx, self.t, 3, history=[])
+        self.nbodies = len(BODIES) - (2 if ctx.quick else 0)  # the raising bodies are enumerated in the thorough tier only
 
     def actions(self):
         n = len(self.run.recs)
         acts = [("adv", a, True) for a in (0, 1, 2)]
         if n < 3:
-            acts += [("call", d, b) for d in (0, 1, 2) for b in range(len(BODIES))]
+            acts += [("call", d, b) for d in (0, 1, 2) for b in range(self.nbodies)]
         for i in range(n):
             acts.append(("cancel", i))
             acts += [("reset", i, d) for d in (0, 2)]
@@ -159,6 +186,7 @@ def explore_short(ctx):
 
     def on_node(w, hist):
         ctx.evaluated()
+        scan_log(ctx, w.run)
         w.run.flush()
         if w.run.nontrivial():
             if ctx.n_distinct < 30000:  # bound shard-report size; the rest is only counted
@@ -170,6 +198,17 @@ def explore_short(ctx):
 
 
 def run(ctx):
+    from vf.engines.logcap import LogCapture
+
+    with LogCapture() as cap:
+        CAP[0] = cap
+        try:
+            _run(ctx)
+        finally:
+            CAP[0] = None
+
+
+def _run(ctx):
     explore_short(ctx)
     for i in ctx.cases(3000, 300000):
         rng = ctx.case_rng("hist", i)
